@@ -153,6 +153,10 @@ pub(crate) struct Client {
     ///
     /// Sometimes it is useful to look at past reports to decide what to do.
     reports: Reports,
+    /// Verification hook: a finished report that replaces the generated one right before it
+    /// is added to the history (see `verif_hooks::ReportHistory::get_report`).
+    #[cfg(iroh_verif)]
+    verif_finished_report: Option<Report>,
 }
 
 #[cfg(not(wasm_browser))]
@@ -290,6 +294,8 @@ impl Client {
             #[cfg(not(wasm_browser))]
             tls_config: opts.tls_config,
             captive_portal_check: opts.user_config.captive_portal_check,
+            #[cfg(iroh_verif)]
+            verif_finished_report: None,
         }
     }
 
@@ -431,6 +437,10 @@ impl Client {
                     }
                 }
             }
+        }
+        #[cfg(iroh_verif)]
+        if let Some(finished) = self.verif_finished_report.take() {
+            report = finished;
         }
         self.add_report_history_and_set_preferred_relay(&mut report);
         debug!(
